@@ -445,6 +445,13 @@ func (tt *Terms) BVBin(op string, a, b *Term) *Term {
 			return tt.BV(w, r)
 		}
 	}
+	// arithmetic with a constant distributes over an ite tree with constant leaves (bits.Len64 chains)
+	if b.IsConst() && a.Op == "ite" && iteConstLeaves(a, 0) {
+		return tt.mapIte(a, func(x *Term) *Term { return tt.BVBin(op, x, b) }, map[*Term]*Term{})
+	}
+	if a.IsConst() && b.Op == "ite" && iteConstLeaves(b, 0) {
+		return tt.mapIte(b, func(x *Term) *Term { return tt.BVBin(op, a, x) }, map[*Term]*Term{})
+	}
 	// length arithmetic stays in Int
 	if w == 64 && (op == "bvadd" || op == "bvsub") {
 		if tt.isI2BV(a) || tt.isI2BV(b) {
@@ -785,6 +792,9 @@ func (tt *Terms) StrLen(a *Term) *Term {
 		}
 		return r
 	}
+	if isByteStr(a) {
+		return tt.Int(1)
+	}
 	return tt.mk("str.len", SInt, a)
 }
 
@@ -816,6 +826,17 @@ func (tt *Terms) SubStr(s, off, n *Term) *Term {
 	// whole string: substr(s,0,len s)
 	if off.IsConst() && off.I == 0 && n == tt.StrLen(s) {
 		return s
+	}
+	if s.Op == "str.++" && off.IsConst() && n.IsConst() {
+		all := true
+		for _, a := range s.Args {
+			if !isByteStr(a) && !(a.IsConst() && len(a.S) == 1) {
+				all = false
+			}
+		}
+		if all && off.I >= 0 && off.I+n.I <= int64(len(s.Args)) {
+			return tt.concatN(s.Args[off.I : off.I+n.I])
+		}
 	}
 	return tt.mk("str.substr", SStr, s, off, n)
 }
@@ -849,10 +870,25 @@ func (tt *Terms) At(s, i *Term) *Term {
 		}
 		return tt.At(tt.concatN(s.Args[1:]), tt.Int(i.I-int64(len(p))))
 	}
+	if s.Op == "str.++" && i.IsConst() && isByteStr(s.Args[0]) {
+		if i.I == 0 {
+			return s.Args[0]
+		}
+		return tt.At(tt.concatN(s.Args[1:]), tt.Int(i.I-1))
+	}
+	if isByteStr(s) && i.IsConst() {
+		if i.I == 0 {
+			return s
+		}
+		return tt.Str("")
+	}
 	return tt.mk("str.at", SStr, s, i)
 }
 
 func (tt *Terms) ToCode(s *Term) *Term {
+	if isByteStr(s) {
+		return s.Args[0] // to_code(from_code(bv2nat b)) = bv2nat b for a byte
+	}
 	if s.IsConst() {
 		if len(s.S) == 1 {
 			return tt.Int(int64(s.S[0]))
@@ -1303,4 +1339,36 @@ func strSuffix(t *Term) string {
 		return t.Args[len(t.Args)-1].S
 	}
 	return ""
+}
+
+// isByteStr: a one-character string built from a byte: (str.from_code (bv2nat b8)).
+func isByteStr(t *Term) bool {
+	return t.Op == "str.from_code" && t.Args[0].Op == "bv2nat" && t.Args[0].Args[0].Sort.W == 8
+}
+
+func iteConstLeaves(t *Term, depth int) bool {
+	if depth > 80 {
+		return false
+	}
+	if t.IsConst() {
+		return true
+	}
+	if t.Op != "ite" {
+		return false
+	}
+	return iteConstLeaves(t.Args[1], depth+1) && iteConstLeaves(t.Args[2], depth+1)
+}
+
+func (tt *Terms) mapIte(t *Term, f func(*Term) *Term, memo map[*Term]*Term) *Term {
+	if r, ok := memo[t]; ok {
+		return r
+	}
+	var r *Term
+	if t.IsConst() {
+		r = f(t)
+	} else {
+		r = tt.Ite(t.Args[0], tt.mapIte(t.Args[1], f, memo), tt.mapIte(t.Args[2], f, memo))
+	}
+	memo[t] = r
+	return r
 }
